@@ -14,6 +14,24 @@ import KrillModel.ES.WalLemmas
 import KrillModel.ES.Reg
 import KrillModel.ES.RegLemmas
 import KrillModel.ES.Bag
+/-
+Clause → theorem (text of C06 in /verif/properties.jsonl):
+* "replaying the stored initialisation and commands from scratch, … any stored snapshot plus the
+  later commands, … the state held in memory … agree": `replay_eq_live` (histories of public
+  operations), `replay_eq_live_krill_usage` (also deletion / re-creation, under the decidable usage
+  predicate `dropSafeB`; `drop_needs_usage_assumption` shows it is needed).
+* "in every respect observable through the API": `replay_eq_live_obs` (for every renderer of results).
+* "snapshots taken at every point of that history": `snapshot_any_point`,
+  `stored_snapshot_is_prefix_state`.
+* "Replaying a stored history never fails or panics": `replay_total`; the live path:
+  `no_panic_of_applicable` (+ `reg_applicable`, `badAgg`).
+* "repository content log" (WAL store): `wal_replay_eq_live`, `wal_replay_eq_live_krill_usage`
+  (decidable `safeRunB`), `wal_live_is_snapshot_plus_sets`, `wal_snapshot_safe_iff` (the side
+  condition is exact), `wal_snapshot_needs_current_caches`.
+* "for every command history produced through the public operations": everything quantifies over
+  arbitrary `List (Op A)` / `List (HOp A)` / `List (Wal.Op T)`; the stream's generated histories are
+  checked against the usage predicates by the driver (oracle name `krill_usage`).
+-/
 namespace KM.Props.C06
 open KM.ES
 
